@@ -341,6 +341,8 @@ fn edge_probes() -> Vec<(String, FileSet)> {
     v.push(("edge/empty-start-file".to_string(), FileSet::single("a.xsd", "")));
     v.push(("edge/whitespace-only".to_string(), FileSet::single("a.xsd", "  \n\t")));
     v.push(("edge/bom-only".to_string(), FileSet::single("a.xsd", "\u{FEFF}")));
+    // start file that was never registered
+    v.push(("edge/start-file-not-registered".to_string(), FileSet { start: "missing.wsdl".into(), files: vec![("a.xsd".into(), "<xs:schema xmlns:xs=\"http://www.w3.org/2001/XMLSchema\"/>".into())] }));
     // deep nesting
     let deep = format!(
         "<xs:schema xmlns:xs=\"http://www.w3.org/2001/XMLSchema\" targetNamespace=\"urn:d\"><xs:complexType name=\"D\">{}<xs:element name=\"x\" type=\"xs:string\"/>{}</xs:complexType></xs:schema>",
